@@ -5,6 +5,7 @@ import O2P.Model.Sha256
 import O2P.Model.Base64
 import O2P.Model.Signed
 import O2P.Model.CookieJar
+import O2P.Model.Redirect
 /-!
   Driver glue for the Layer-A correspondence (`serve` op): decode Cfg / Req / Env from the
   `key=value` fields the harness recorded, run `O2P.serve`, print the canonical answer.
@@ -173,6 +174,14 @@ def opServe : Op
       | [s, v] => do pure ((← str s), (← Proto.bool v))
       | _ => none)
     let redirect ← kStr e "redirect"
+    let whitelist ← kStrs c "whitelist"
+    let ptbl ← (do
+      let f ← kvGet e "parsetbl"
+      if f == "-" then pure ([] : List (Str × Option (Str × Str))) else
+      (f.splitOn ",").mapM (fun t => match t.splitOn ":" with
+        | [x, "0"] => do pure ((← str x), (none : Option (Str × Str)))
+        | [x, "1", h, p] => do pure ((← str x), some ((← str h), (← str p)))
+        | _ => none))
     let oauthru ← kStr e "oauthru"
     let stateParsed ← kStr e "stateparsed"
     let bearer ← (kvGet e "bearer" >>= parseOptSession)
@@ -195,9 +204,13 @@ def opServe : Op
       nonceClaim := fun t => match tokens.find? (fun x => x.1 == t) with | some x => x.2.2 | none => none,
       clearOK := ← kBool e "clearok",
       emailOK := fun em => match emails.find? (fun x => x.1 == em) with | some x => x.2 | none => false,
-      getRedirect := fun _ _ _ _ _ _ _ => redirect,
+      -- composed with the C06 model (url.Parse verdicts shipped as a table); the observed value of
+      -- GetRedirect is cross-checked below
+      getRedirect := fun rd xa isF proto host uri reqURI =>
+        O2P.Redirect.getRedirect whitelist (O2P.Redirect.tblParse ptbl) rd xa isF proto host uri reqURI
+          (O2P.Redirect.normPrefix cfg.proxyPrefix),
       redirectErr := ← kBool e "redirecterr",
-      isValidRedirect := fun s => s == apprd.1 && apprd.2,
+      isValidRedirect := fun s => O2P.Redirect.isValidRedirect whitelist s (O2P.Redirect.tblParse ptbl s),
       csrfByName := fun n => (csrfs.find? (fun x => x.1 == n)).map (·.2),
       redeem := fun _ _ _ => redeem,
       enrichOK := fun _ => (kBool e "enrichok").getD false,
@@ -236,7 +249,11 @@ def opServe : Op
       | .err, true => true
     let lbCsrf : Bool := csrfs.all (fun x =>
       req.cookies.any (fun ck => ck.1 == x.1 && (O2P.validate Sha.hmac ck.1 ck.2 seedB cfg.cookieExpire nowNs).isSome))
+    let rdModel := env.redirectOf cfg req
+    let lbRd : Bool := (← kBool e "redirecterr") || rdModel == redirect
+    let lbApp : Bool := apprd.1.isEmpty || env.isValidRedirect apprd.1 == apprd.2
     let lbTag := (if lbSession then "" else "LAYERB-SESSION-MISMATCH ") ++ (if lbCsrf then "" else "LAYERB-CSRF-MISMATCH ")
+      ++ (if lbRd then "" else s!"LAYERB-REDIRECT-MISMATCH({hex rdModel}) ") ++ (if lbApp then "" else "LAYERB-APPRD-MISMATCH ")
     -- render
     let sset := r.cookies.any (fun c => match c with | .setSession _ => true | _ => false)
     let cleared := r.cookies.any (fun c => match c with | .clearSession => true | _ => false)
